@@ -3,7 +3,8 @@
 Real code: `Generator.get_indexed_symbol` and `ForLoop.register_indexed_symbol` (and the loop's value list
 built in `ForLoop.__init__`) of `pymoca.backends.casadi.generator`, reached through the whole pipeline
 parse -> flatten -> generate on a one-equation model `x[<subscripts>] = 0` (also `y = 2*x[..]`,
-`y = sum(x[..])`, and the same inside `for i in a:b loop ... end for`).
+`y = sum(x[..])`, `y = x[..] + 100*x[..]` with two references, and the same inside `for i in a:b loop ... end for`;
+references through components `c0[..].c1[..].v[..]`).
 
 Observation: generation raises, or the single residual is evaluated at a point where every element of `x`
 has its own value (16^k, exact in binary floating point), so the residual's entries *are* the selected
@@ -152,6 +153,10 @@ def render(case):
         eq = "y = 2*%s;" % ref
     elif ctx == "sum":
         eq = "y = sum(%s);" % ref
+    elif ctx == "pair":
+        # two references to the same array in one equation (a stencil); single level only
+        ref2 = "x[%s]" % ",".join(r.sub(s) for s in case["subs2"])
+        eq = "y = %s + 100*%s;" % (ref, ref2)
     else:
         raise ValueError(ctx)
     if case.get("loop"):
@@ -193,7 +198,10 @@ def run_real(case):
             if s.name() == xname:
                 if tuple(s.shape) != (n1, n2):
                     return {"o": "other", "detail": "symbol %s has shape %s" % (xname, s.shape)}
-                args.append(ca.DM(np.array([[float(16 ** (r + n1 * c)) for c in range(n2)] for r in range(n1)])))
+                if case.get("ctx") == "pair":   # small values: the residual holds v1 + 100*v2
+                    args.append(ca.DM(np.array([[float(1 + r + n1 * c) for c in range(n2)] for r in range(n1)])))
+                else:
+                    args.append(ca.DM(np.array([[float(16 ** (r + n1 * c)) for c in range(n2)] for r in range(n1)])))
             else:
                 args.append(ca.DM.zeros(*s.shape))
         if len(m.equations) == 0:
@@ -210,6 +218,13 @@ def run_real(case):
     for row in res.reshape(res.shape[0], -1).tolist():
         out = []
         for v in row:
+            if ctx == "pair":
+                v = -v
+                if v != int(v) or not (1 <= int(v) % 100 <= n1 * n2) or not (1 <= int(v) // 100 <= n1 * n2):
+                    return {"o": "other", "detail": "pair residual %r is not v1 + 100*v2 of two elements" % v}
+                for k in (int(v) % 100 - 1, int(v) // 100 - 1):
+                    out.append([k % n1, k // n1])
+                continue
             if ctx == "rhs":
                 v = -v / 2
             elif ctx == "sum":
@@ -269,6 +284,15 @@ def denoted(sub, n, v):
 
 def spec(case):
     """-> ("error", why) | ("rows", rows) | ("free", why)   (free: nothing denoted; error or nothing selected)"""
+    if case.get("ctx") == "pair":
+        # each reference has its own meaning; the residual row holds the first one's element, then the second's
+        k1, w1 = spec(dict(case, ctx="eq"))
+        k2, w2 = spec(dict(case, ctx="eq", subs=case["subs2"]))
+        if k1 == "error" or k2 == "error":
+            return ("error", "%s / %s" % (w1 if k1 == "error" else "first reference valid", w2 if k2 == "error" else "second reference valid"))
+        if k1 == "free" or k2 == "free":
+            return ("free", "nothing denoted")
+        return ("rows", [a + b for a, b in zip(w1, w2)])
     levels, loop = levels_of(case), case.get("loop")
     subs = all_subs(case)
     ctx = case.get("ctx", "eq")
@@ -362,6 +386,10 @@ def to_model(case, cfg):
                 "levels": [{"dims": l["dims"], "subs": [ms(s) for s in l["subs"]]} for l in case["levels"]],
                 "loop": [mi(s) for s in case["loop"]] if case.get("loop") else None,
                 "inloop": bool(case.get("loop")), "sum": case.get("ctx") == "sum"}
+    if case.get("ctx") == "pair":
+        return {"op": "index.outcome", "cfg": cfg, "dims": case["dims"], "subs": [ms(s) for s in case["subs"]],
+                "subs2": [ms(s) for s in case["subs2"]],
+                "loop": [mi(s) for s in case["loop"]] if case.get("loop") else None, "inloop": bool(case.get("loop")), "sum": False}
     return {"op": "index.outcome", "cfg": cfg, "dims": case["dims"], "subs": [ms(s) for s in case["subs"]],
             "loop": [mi(s) for s in case["loop"]] if case.get("loop") else None,
             "inloop": bool(case.get("loop")), "sum": case.get("ctx") == "sum"}
@@ -412,6 +440,7 @@ def check_case(ctx, case, cfg, drv, stream="main"):
     real = run_real(case)
     kind, want = spec(case)
     ctx.count("stream:" + stream)
+    ctx.count("references:%d" % (2 if case.get("ctx") == "pair" else 1))
     ctx.count("dims:%d" % len(eff_dims(case)))
     ctx.count("name-parts:%d" % len(levels_of(case)))
     ctx.count("ctx:" + case.get("ctx", "eq") + ("+loop" if case.get("loop") else ""))
@@ -588,6 +617,40 @@ def gen_fewer_subscripts(shapes):
                     yield {"dims": [n, m], "subs": [["loop", 1, off]], "loop": [["lit", a], ["lit", b]], "ctx": "eq"}
 
 
+def gen_stencils(sizes, shapes2d=()):
+    """Two references to the same array in one loop body, each with its own subscript expression (stencils
+    x[i+o1] .. x[i+o2]): every ordered pair of offsets, every loop range inside 0..n+1; in 2-D with the same or a
+    different constant row / column."""
+    for n in sizes:
+        for a in range(0, n + 2):
+            for b in range(a, n + 2):
+                for o1 in (-2, -1, 0, 1, 2):
+                    for o2 in (-2, -1, 0, 1, 2):
+                        yield {"dims": [n], "subs": [["loop", 1, o1]], "subs2": [["loop", 1, o2]],
+                               "loop": [["lit", a], ["lit", b]], "ctx": "pair"}
+                for o1, o2, m2 in ((0, 0, -1), (1, 0, -1), (0, 1, -1), (-1, 1, 2), (1, -1, 2)):
+                    yield {"dims": [n], "subs": [["loop", 1, o1]], "subs2": [["loop", m2, loop_offsets(n, m2, [o2])[0]]],
+                           "loop": [["lit", a], ["lit", b]], "ctx": "pair"}
+        for k1 in range(0, n + 2):
+            for k2 in range(0, n + 2):
+                yield {"dims": [n], "subs": [["idx", ["lit", k1]]], "subs2": [["idx", ["lit", k2]]], "loop": None, "ctx": "pair"}
+                yield {"dims": [n], "subs": [["idx", ["lit", k1]]], "subs2": [["loop", 1, k2 - 1]],
+                       "loop": [["lit", 1], ["lit", 2]], "ctx": "pair"}
+    for (n, m) in shapes2d:
+        for a in range(0, m + 1):
+            for b in range(a, m + 2):
+                for o1 in (-1, 0, 1):
+                    for o2 in (-1, 0, 1):
+                        for r1 in range(1, n + 1):
+                            for r2 in range(1, n + 2):
+                                yield {"dims": [n, m], "subs": [["idx", ["lit", r1]], ["loop", 1, o1]],
+                                       "subs2": [["idx", ["lit", r2]], ["loop", 1, o2]],
+                                       "loop": [["lit", a], ["lit", b]], "ctx": "pair"}
+                                yield {"dims": [m, n], "subs": [["loop", 1, o1], ["idx", ["lit", r1]]],
+                                       "subs2": [["loop", 1, o2], ["idx", ["lit", r2]]],
+                                       "loop": [["lit", a], ["lit", b]], "ctx": "pair"}
+
+
 def sub_vocabulary(n):
     """A small vocabulary of subscripts for one dimension of size n (valid, both ends out of range, slices)."""
     out = [["all"], ["idx", ["lit", 0]], ["idx", ["lit", 1]], ["idx", ["lit", n]], ["idx", ["lit", n + 1]],
@@ -601,6 +664,34 @@ NESTED_SHAPES = [
     [[], [3]], [[], [2, 2]], [[2], [3]], [[2], []], [[3], [2]], [[], [], [3]], [[], [2], [3]], [[2], [], [2]], [[], [2, 3]],
     [[2, 2], []], [[1], [1]], [[], []], [[], [], []],
 ]
+
+
+def gen_scalar_part_subscripts():
+    """A subscript (constant, slice, `:`, loop index, computed loop subscript) on a part of the name that has no
+    dimension — first, middle or last part of a two- or three-part name — with valid subscripts on the other parts."""
+    bad_subs = [["idx", ["lit", 1]], ["idx", ["lit", 2]], ["idx", ["lit", 0]], ["all"], ["range", ["lit", 1], ["lit", 1]],
+                ["idx", ["par", 1]], ["loop", 1, 0], ["loop", 1, 1]]
+    shapes = [[[], [3]], [[2], []], [[], []], [[], [], [3]], [[2], [], [2]], [[], [2], []], [[2], [], []], [[], [], []],
+              [[], [], [2, 2]], [[], [2], [3]]]
+    for shape in shapes:
+        for k, dims in enumerate(shape):
+            if dims:
+                continue
+            for b in bad_subs:
+                for valid in (True, False):
+                    levels = []
+                    for j, d in enumerate(shape):
+                        if j == k:
+                            subs = [b]
+                        elif valid:
+                            subs = [["idx", ["lit", 1]] for _ in d]
+                        else:
+                            subs = []
+                        levels.append({"dims": list(d), "subs": subs})
+                    if len([x for l in levels for x in l["dims"]]) > 2:
+                        continue
+                    loop = [["lit", 1], ["lit", 1]] if b[0] == "loop" else None
+                    yield {"levels": levels, "loop": loop, "ctx": "eq"}
 
 
 def random_nested(rng):
@@ -670,20 +761,23 @@ def run(ctx):
     plan.append(("1d-eq", list(gen_1d_equation((1, 2, 3, 4), ("eq",))), None))
     plan.append(("1d-loop", list(gen_1d_loop((1, 2, 3, 4), ("eq",))), None))
     plan.append(("1d-loop-descending", list(gen_1d_loop((1, 2, 3, 4), ("eq",), muls=(-1,))), None))
-    plan.append(("1d-loop-steps", list(gen_1d_loop((1, 2, 3, 4), ("eq", "rhs"), muls=(2, -2))), 200 if quick else None))
-    nested = [random_nested(rng) for _ in range(600 if quick else 12000)]
+    plan.append(("1d-loop-steps", list(gen_1d_loop((1, 2, 3, 4), ("eq", "rhs"), muls=(2, -2))), 150 if quick else None))
+    nested = [random_nested(rng) for _ in range(400 if quick else 12000)]
     nested = [c for c in nested if len(eff_dims(c)) <= 2]
     plan.append(("nested", nested, None))
-    plan.append(("1d-eq-rhs-sum", list(gen_1d_equation((1, 2, 3) if quick else (1, 2, 3, 4), ("rhs", "sum"))), 350 if quick else None))
-    plan.append(("1d-loop-rhs", list(gen_1d_loop((1, 2, 3), ("rhs",))), 300 if quick else None))
+    plan.append(("nested-scalar-parts", list(gen_scalar_part_subscripts()), None))
+    plan.append(("stencils", list(gen_stencils((2, 3, 4) if quick else (1, 2, 3, 4, 5), [(2, 3)] if quick else [(2, 3), (3, 3), (2, 4)])),
+                 450 if quick else None))
+    plan.append(("1d-eq-rhs-sum", list(gen_1d_equation((1, 2, 3) if quick else (1, 2, 3, 4), ("rhs", "sum"))), 250 if quick else None))
+    plan.append(("1d-loop-rhs", list(gen_1d_loop((1, 2, 3), ("rhs",))), 150 if quick else None))
     plan.append(("scalar+arity", list(gen_scalar_and_arity()), None))
-    plan.append(("fixed-in-loop", list(gen_fixed_in_loop((1, 2, 3))), 250 if quick else None))
-    plan.append(("loop-spellings", list(gen_loop_spellings((1, 2, 3, 4))), 250 if quick else None))
-    plan.append(("three-part", list(gen_three_part((1, 2, 3) if quick else (1, 2, 3, 4))), 300 if quick else None))
-    plan.append(("fewer-subscripts", list(gen_fewer_subscripts(((2, 2), (2, 3), (3, 2)))), 150 if quick else None))
+    plan.append(("fixed-in-loop", list(gen_fixed_in_loop((1, 2, 3))), 150 if quick else None))
+    plan.append(("loop-spellings", list(gen_loop_spellings((1, 2, 3, 4))), 150 if quick else None))
+    plan.append(("three-part", list(gen_three_part((1, 2, 3) if quick else (1, 2, 3, 4))), 200 if quick else None))
+    plan.append(("fewer-subscripts", list(gen_fewer_subscripts(((2, 2), (2, 3), (3, 2)))), 100 if quick else None))
     shapes = [(1, 1), (1, 2), (2, 1), (2, 2), (2, 3), (3, 2), (3, 3)]
-    plan.append(("2d-eq", list(gen_2d_equation(shapes if quick else shapes + [(1, 4), (4, 2), (4, 4)])), 600 if quick else 60000))
-    plan.append(("2d-loop", list(gen_2d_loop(shapes if quick else shapes + [(4, 2), (2, 4)])), 400 if quick else 40000))
+    plan.append(("2d-eq", list(gen_2d_equation(shapes if quick else shapes + [(1, 4), (4, 2), (4, 4)])), 450 if quick else 60000))
+    plan.append(("2d-loop", list(gen_2d_loop(shapes if quick else shapes + [(4, 2), (2, 4)])), 350 if quick else 40000))
     ctx.extra["exhaustive"] = {}
     for name, cases, cap in plan:
         full = cap is None or len(cases) <= cap
